@@ -102,7 +102,7 @@ def check(ctx, clause):
             kp = _paths(k, defs, f)
             vp = _paths(v, defs, f)
             missing = sorted(p for p in vp if not _covers(kp, p))
-            key = "R-MEMO|key-completeness|%s|%s[%s]" % (f.short, norm(d), norm(k)[:30])
+            key = "R-MEMO|key-completeness|%s|%s[%s]" % (f.short, f.key(d), f.key(k)[:30])
             obs.append(Ob(clause, "R-MEMO", key, f.loc(st), not missing,
                           "memo %s[%s]: every input of the stored value is part of the key" % (norm(d), norm(k)[:30]) if not missing else
                           "memo %s[%s] in %s stores a value computed from %s, which the key does not contain: the first "
